@@ -19,7 +19,7 @@ INT_DTYPES = ["int8", "int16", "int32", "int64", "uint8", "uint16", "uint32", "u
 RULE = ("bounded-exhaustive: all id arrays of length<=4 and all edge arrays of length<=3 over alphabet {0,1,2} x directedness; "
         "random id/edge arrays of every integer dtype with values at the dtype limits; a block of 64-bit ids that collide after a float64 detour; radius arrays (1-D/2-D, int/float, masks); "
         "integer covariance stacks for 1..3 spatial axes, symmetric-biased; exactly singular ones (diagonal with a 0, zero matrix, rank one v v^T, "
-        "definite/singular blocks, singular indefinite, all negatives; alone, between definite matrices, flagged missing), (n,0,0) stacks without a spatial axis; "
+        "definite/singular blocks, singular indefinite, all negatives; alone, between definite matrices, flagged missing), asymmetric matrices whose eigenvalues are all positive, (n,0,0) stacks without a spatial axis; "
         "float radii with fractions in (-1,0), -0.0, NaN; "
         "all 2^5 configs x declared/undeclared properties; non-trivial = non-empty input; distinct by structural input")
 EXHAUSTIVE_BLOCKS = ["validate_unique_node_ids: all arrays of length<=4 over {0,1,2}",
@@ -281,6 +281,19 @@ def singular_cases(rng, tier):
             yield {**shape_case(axes, ellipsoid={"shape": [3, side, side], "mats": stack, "missing": [True, False, False]}, cfg=only_ell), "fam": lab}
             yield {**shape_case(axes, ellipsoid={"shape": [1, side, side], "mats": [M], "missing": None},
                                 cfg=(False, False, False, False, False)), "fam": lab}
+    # asymmetric although every eigenvalue is positive (triangular with a positive diagonal) or has a positive real part
+    # (definite + antisymmetric: complex pair): only the symmetry test can reject these
+    asym = [[[4, 0], [-1, 5]], [[2, 1], [0, 2]], [[1, 3], [0, 1]], [[2, 1], [-1, 2]], [[3, -2], [2, 3]], [[5, 1], [2, 5]],
+            [[2, 1, 0], [0, 2, 1], [0, 0, 2]], [[1, 0, 0], [2, 3, 0], [-1, 4, 5]], [[2, -1, 0], [-1, 2, -1], [0, 1, 2]],
+            [[3, 1, 0], [-1, 3, 0], [0, 0, 1]], [[2, 0, 1], [0, 2, 0], [0, 0, 2]], [[4, 1, 1], [1, 4, 1], [1, 2, 4]]]
+    for M in asym:
+        side = len(M)
+        axes = ["space"] * side
+        for T in (M, [list(r) for r in zip(*M)]):
+            yield {**shape_case(axes, ellipsoid={"shape": [1, side, side], "mats": [T], "missing": None}, cfg=only_ell), "fam": "asym-poseig"}
+            yield {**shape_case(axes, ellipsoid={"shape": [3, side, side], "mats": [pd[side], pd[side], T], "missing": None}, cfg=only_ell), "fam": "asym-poseig"}
+            yield {**shape_case(axes, ellipsoid={"shape": [3, side, side], "mats": [pd[side], pd[side], T], "missing": [False, False, True]}, cfg=only_ell),
+                   "fam": "asym-poseig"}
     # no spatial axis although axes are declared: nothing can be a covariance matrix, whatever its shape
     for axes in (["time"], ["time", "channel"], []):
         for n in (0, 1, 2):
